@@ -10,7 +10,7 @@ use std::ffi::OsString;
 
 pub static DEF: PropDef = PropDef {
     id: "C20",
-    rule: "random: 0-12 input lines built from words, inner and trailing blanks, the replacement string R itself, '{}', '%', multi-byte text (1 case in 8 written in Latin-1, so that such lines are not valid UTF-8; compared byte for byte), glob and shell characters (no quotes, backslashes or leading blanks: the statement's domain), blank lines in between, with/without final newline; sub-run long-input: 1-3 filler lines bring the first run of 2-4 empty lines onto a multiple of 4096/8192/16384 bytes (offset 0..run+1), so that the run is split between two reads; 0-4 initial arguments each holding 0-3 occurrences of R (adjacent, embedded, alone); R in {'{}', '_', 'XX', '%', 'é', '{', '{}{}'}; spellings -I R / -i / --replace / --replace=R; mode options: -I alone, or 2-3 of -I R, -n k, -L k (k in 1..3) in every order. Exhaustive sub-run: the full order matrix of {-I, -n k, -L k} (k in 1..3), 2 or 3 of them, on a fixed three-line input. Oracle: replace mode: records == for each non-empty line in order [initial args with every R replaced by the whole line], nothing appended, exit 0, empty input => no record; the mode is decided by the last of -I/-n/-L (-I with -n 1 in either order is replace mode); -n/-L modes are modelled as in C04 (blank splitting, k arguments / k lines per invocation, initial arguments unchanged). Non-trivial = (a line contains a blank or R, and some initial argument contains R at least twice) or >= 2 mode options are present. Distinct = distinct case JSON.",
+    rule: "random: 0-12 input lines built from words, inner and trailing blanks, the replacement string R itself, '{}', '%', multi-byte text (1 case in 8 written in Latin-1, so that such lines are not valid UTF-8; compared byte for byte), glob and shell characters (no quotes, backslashes or leading blanks: the statement's domain), blank lines in between, with/without final newline; sub-run delimited: replace mode on -0 / -d ',' input whose items start with blanks and hold quotes, backslashes and (with -0) newlines - ordinary bytes there; sub-run long-input: 1-3 filler lines bring the first run of 2-4 empty lines onto a multiple of 4096/8192/16384 bytes (offset 0..run+1), so that the run is split between two reads; 0-4 initial arguments each holding 0-3 occurrences of R (adjacent, embedded, alone); R in {'{}', '_', 'XX', '%', 'é', '{', '{}{}'}; spellings -I R / -i / --replace / --replace=R; mode options: -I alone, or 2-3 of -I R, -n k, -L k (k in 1..3) in every order. Exhaustive sub-run: the full order matrix of {-I, -n k, -L k} (k in 1..3), 2 or 3 of them, on a fixed three-line input. Oracle: replace mode: records == for each non-empty line in order [initial args with every R replaced by the whole line], nothing appended, exit 0, empty input => no record; the mode is decided by the last of -I/-n/-L (-I with -n 1 in either order is replace mode); -n/-L modes are modelled as in C04 (blank splitting, k arguments / k lines per invocation, initial arguments unchanged). Non-trivial = (a line contains a blank or R, and some initial argument contains R at least twice) or >= 2 mode options are present. Distinct = distinct case JSON.",
     assumptions: &[
         "lines are free of quotes, backslashes and leading blanks (stated domain); a line of only blanks is not generated",
         "three mode options that include -I, -n 1 and -L together are not generated: 'last wins' and '-I with -n 1 is not a conflict' do not settle which mode results",
@@ -47,6 +47,10 @@ pub struct Case {
     /// lines with 'é' are not valid UTF-8 (the command line itself stays UTF-8)
     #[serde(default)]
     pub latin1: bool,
+    /// 0: lines (newline-separated); 1: -0; 2: -d ',' - the items then also start with blanks and
+    /// hold quotes and backslashes, which -0/-d make ordinary bytes
+    #[serde(default)]
+    pub delim: u8,
 }
 
 /// the bytes a line is written as
@@ -161,7 +165,33 @@ pub fn gen_case(g: &mut Gen) -> Case {
             v
         }
     };
-    Case { lines, blanks_before, final_newline: g.chance(4, 5), initial, r, spelling, modes, lead: vec![], latin1: g.chance(1, 8) }
+    Case { lines, blanks_before, final_newline: g.chance(4, 5), initial, r, spelling, modes, lead: vec![], latin1: g.chance(1, 8), delim: 0 }
+}
+
+/// replace mode on -0 / -d ',' input: items that begin with blanks and contain quotes, backslashes
+/// (and, with -0, newlines) must replace R unchanged
+pub fn gen_delim_case(g: &mut Gen) -> Case {
+    let mut c = gen_case(g);
+    c.delim = g.usize_in(1, 2) as u8;
+    c.modes = vec![ModeOpt::I];
+    c.lead.clear();
+    for b in c.blanks_before.iter_mut() {
+        *b = 0;
+    }
+    if c.lines.is_empty() {
+        c.lines.push("x".into());
+        c.blanks_before.push(0);
+    }
+    for l in c.lines.iter_mut() {
+        if g.chance(1, 2) {
+            *l = format!("{}{l}", g.pick(&[" ", "  ", "\t", " \t "]));
+        }
+        if g.chance(1, 3) {
+            let extra = if c.delim == 1 { g.pick(&["'", "\"", "\\", "a'b", "\"q r\"", "\\ ", "x\ny", "\n"]) } else { g.pick(&["'", "\"", "\\", "a'b", "\"q r\"", "\\ ", "\\n", "''"]) };
+            l.push_str(extra);
+        }
+    }
+    c
 }
 
 /// A case whose first run of empty lines straddles a multiple of the reader's block size (BufReader:
@@ -192,6 +222,17 @@ pub fn gen_long_case(g: &mut Gen) -> Case {
 }
 
 pub fn render_input(c: &Case) -> Vec<u8> {
+    if c.delim != 0 {
+        let sep = if c.delim == 1 { 0u8 } else { b',' };
+        let mut s: Vec<u8> = vec![];
+        for (i, l) in c.lines.iter().enumerate() {
+            s.extend_from_slice(&line_bytes(c, l));
+            if i + 1 < c.lines.len() || c.final_newline {
+                s.push(sep);
+            }
+        }
+        return s;
+    }
     let mut s: Vec<u8> = vec![];
     for n in &c.lead {
         s.extend(std::iter::repeat(b'f').take(*n as usize));
@@ -241,6 +282,14 @@ pub fn effective(modes: &[ModeOpt]) -> Option<Eff> {
 
 pub fn cmdline(c: &Case) -> Vec<OsString> {
     let mut o: Vec<OsString> = vec![];
+    match c.delim {
+        1 => o.push("-0".into()),
+        2 => {
+            o.push("-d".into());
+            o.push(",".into());
+        }
+        _ => {}
+    }
     for m in &c.modes {
         match m {
             ModeOpt::I => match c.spelling {
@@ -370,6 +419,7 @@ pub fn check(ctx: &mut Ctx, c: &Case) -> Outcome {
         .class_if(c.r != "{}", "custom-R")
         .class_if(!c.lead.is_empty(), "empty-lines-across-a-block-boundary")
         .class_if(c.latin1 && lines.iter().any(|l| !l.is_ascii()), "input-line-not-valid-utf8")
+        .class_if(c.delim != 0, "items-from--0-or--d")
         .sample(json!({"cmdline": format!("xargs {} rec {:?}", opts.iter().map(|o| o.to_string_lossy().into_owned()).collect::<Vec<_>>().join(" "), c.initial), "input": if input.len() > 300 { format!("{} bytes; lead lines {:?}; then {:?}", input.len(), c.lead, lossy(&input[input.len() - 120..])) } else { lossy(&input) }, "invocations": got.len()}))
         .ok()
 }
@@ -384,7 +434,7 @@ fn run(w: &mut Worker) {
         ModeOpt::N(_) => 1,
         ModeOpt::L(_) => 2,
     };
-    let base = |modes: Vec<ModeOpt>, spelling: u8| Case { lines: vec!["a b".into(), "c".into(), "d e f".into(), "g".into(), "h i".into()], blanks_before: vec![0, 0, 1, 0, 0, 0], final_newline: true, initial: vec!["<{}>".into(), "k".into()], r: "{}".into(), spelling, modes, lead: vec![], latin1: false };
+    let base = |modes: Vec<ModeOpt>, spelling: u8| Case { lines: vec!["a b".into(), "c".into(), "d e f".into(), "g".into(), "h i".into()], blanks_before: vec![0, 0, 1, 0, 0, 0], final_newline: true, initial: vec!["<{}>".into(), "k".into()], r: "{}".into(), spelling, modes, lead: vec![], latin1: false, delim: 0 };
     for a in &opts {
         for b in &opts {
             if kind(a) == kind(b) {
@@ -403,6 +453,7 @@ fn run(w: &mut Worker) {
     }
     w.exhaustive("mode-matrix", "every ordered choice of 2 or 3 of {-I, -n k, -L k}, k in 1..3 (x 4 spellings for pairs)", matrix.into_iter(), check);
     w.random("replace", w.tier.pick(6_000, 80_000), (40, 200), 500, gen_case, check);
+    w.random("delimited", w.tier.pick(3_000, 40_000), (40, 200), 300, gen_delim_case, check);
     w.random("long-input", w.tier.pick(1_200, 16_000), (40, 200), 200, gen_long_case, check);
 }
 
